@@ -205,6 +205,19 @@ func (c *cntRS) Read(b []byte) (int, error) {
 }
 func (c *cntRS) Seek(o int64, w int) (int64, error) { c.seeks++; return c.rs.Seek(o, w) }
 
+// dataEOFRS is a ReadSeeker that reports io.EOF together with the last bytes (legal for an
+// io.Reader; bytes.Reader and os.File report it on the following call).
+type dataEOFRS struct{ rd *bytes.Reader }
+
+func (d *dataEOFRS) Read(b []byte) (int, error) {
+	n, err := d.rd.Read(b)
+	if err == nil && d.rd.Len() == 0 {
+		err = io.EOF
+	}
+	return n, err
+}
+func (d *dataEOFRS) Seek(o int64, w int) (int64, error) { return d.rd.Seek(o, w) }
+
 // withWatchdog runs f; false means it did not return within d.
 func withWatchdog(d time.Duration, f func()) bool {
 	done := make(chan interface{}, 1)
@@ -230,7 +243,11 @@ func execXR(o *Out, id, line string) {
 	if kv["ops"] == "" || kv["ops"] == "-" {
 		ops = nil
 	}
-	crs := &cntRS{rs: bytes.NewReader(stream)}
+	var base io.ReadSeeker = bytes.NewReader(stream)
+	if kv["rs"] == "dataeof" {
+		base = &dataEOFRS{rd: bytes.NewReader(stream)}
+	}
+	crs := &cntRS{rs: base}
 	xr, err := xflate.NewReader(crs, nil)
 	if err != nil {
 		o.Count("open-failed")
@@ -535,7 +552,11 @@ func genXR(r *Rand, tier string, emit func(string)) {
 				ops = append(ops, al[r.Intn(len(al))])
 			}
 		}
-		emit(fmt.Sprintf("xr stream=%s plain=%s ops=%s", hx(st.stream), hx(st.plain), strings.Join(ops, "|")))
+		rsKind := ""
+		if i%4 == 3 {
+			rsKind = "rs=dataeof " // the ReadSeeker reports io.EOF together with the last bytes
+		}
+		emit(fmt.Sprintf("xr %sstream=%s plain=%s ops=%s", rsKind, hx(st.stream), hx(st.plain), strings.Join(ops, "|")))
 	}
 }
 
